@@ -404,7 +404,7 @@ def reassemble_body(c):
         sels.append(sel)
         descs.append(d)
     arrangement = [c.int(0, npieces - 1) for _ in range(c.int(2, 5))]
-    how = c.choice(["concatenate_list", "concatenate_tuple", "axis_kw", "axis_neg", "hstack", "append"])
+    how = c.choice(["concatenate_list", "concatenate_tuple", "axis_kw", "axis_neg", "hstack", "append", "via_dict", "via_list"])
     if cols and how == "hstack":
         how = "concatenate_list"
     scales = [1.0 + 0.5 * i for i in range(npieces)]
@@ -413,6 +413,17 @@ def reassemble_body(c):
 
     def build(np_, x):
         ps = [x[s_] * k_ for s_, k_ in zip(sels, scales)]
+        if how in ("via_dict", "via_list") and np_ is not onp:
+            # the pieces pass through one of autograd's own containers (a dict with keys in non-sorted order, or a list) before they are joined
+            import autograd.builtins as ab
+
+            if how == "via_dict":
+                keys = ["w", "b", "z", "a"][: len(ps)]
+                box = ab.dict({k_: p_ for k_, p_ in zip(keys, ps)})
+                ps = [box[k_] for k_ in keys]
+            else:
+                box = ab.list(ps)
+                ps = [box[i_] for i_ in range(len(ps))]
         seq = [ps[i] for i in arrangement]
         if how == "concatenate_list":
             return np_.concatenate(seq)
